@@ -335,7 +335,9 @@ impl SubRule {
                 ParseElement::Matrix(mods, var) => if !self.context_match_matrix(mods, var, word, pos, item.position)? {
                     return Ok(false) 
                 },
-                ParseElement::Variable(..) => unimplemented!(),
+                ParseElement::Variable(num, mods) => if !self.context_match_struct_var(num, mods, word, pos, item.position)? {
+                    return Ok(false)
+                },
                 _ => unreachable!()
             }
         }
@@ -353,6 +355,19 @@ impl SubRule {
         }
 
         Ok(true)
+    }
+
+    /// A variable used inside a structure in an environment: it must hold a segment, which is matched like an ipa element
+    fn context_match_struct_var(&self, num: &Token, mods: &Option<Modifiers>, word: &Word, pos: &mut SegPos, err_pos: Position) -> Result<bool, RuleRuntimeError> {
+        let var = self.variables.borrow().get(&num.value.parse::<usize>().unwrap()).cloned();
+        match var {
+            Some(VarKind::Segment(s)) => if self.context_match_ipa(&s, mods, word, *pos, err_pos)? {
+                pos.increment(word);
+                Ok(true)
+            } else { Ok(false) },
+            Some(VarKind::Syllable(_)) => Err(RuleRuntimeError::SyllVarInsideStruct(err_pos)),
+            None => Err(RuleRuntimeError::UnknownVariable(num.clone())),
+        }
     }
 
     fn context_match_ellipis_struct(&self, items: &[Item], index: &mut usize, word: &Word, pos: &mut SegPos, syll_index: usize) -> Result<bool, RuleRuntimeError> {
@@ -395,7 +410,9 @@ impl SubRule {
                     ParseElement::Matrix(mods, var) => if !self.context_match_matrix(mods, var, word, pos, items[*index].position)? {
                         m = false; break;
                     },
-                    ParseElement::Variable(..) => unimplemented!(),
+                    ParseElement::Variable(num, mods) => if !self.context_match_struct_var(num, mods, word, pos, items[*index].position)? {
+                        m = false; break;
+                    },
                     _ => unreachable!()
                 }
                 *index += 1;
